@@ -59,7 +59,7 @@ class Observation:
 
 
 def observe(segments, adj=None, eof=True, app=None, unix=False, send_caps=None, keep=False, addr=("127.0.0.1", 40000),
-            max_turns=3000):
+            max_turns=3000, nonquiescence_is_observation=False):
     """Feed `segments` (list of bytes; None = wait for quiescence before sending the rest) to a fresh
     single-thread world; returns an Observation.  Each segment is one recv() at most."""
     app = app or RecApp()
@@ -84,8 +84,12 @@ def observe(segments, adj=None, eof=True, app=None, unix=False, send_caps=None, 
             if eof and not c.closed:
                 c.in_eof = True
                 w.run(max_turns)
-        except simnet.HarnessError:
+        except simnet.SimWouldBlock:
             raise
+        except simnet.HarnessError as e:
+            if not nonquiescence_is_observation:
+                raise
+            o.exception = ("NoQuiescence", str(e), "")
         except BaseException as e:  # exceptions escaping the loop are observations, not harness errors
             import traceback
             o.exception = (type(e).__name__, str(e)[:200], traceback.format_exc()[-1200:])
